@@ -26,3 +26,5 @@ Lemma cl_wake_thread_unparks_always : fact_wake_thread_unparks_always = true. Pr
 (* drain / run_one_job_now of a job that returns Pending *)
 Lemma cl_requeue_at_front : fact_requeue_at_front = true. Proof. reflexivity. Qed.
 Lemma cl_drain_requeues_via_requeue : fact_drain_requeues_via_requeue = true. Proof. reflexivity. Qed.
+(* the wakers own their queue (strong reference): in the model a registered waker always has a queue to wake *)
+Lemma cl_wakers_hold_queue_strongly : fact_wakers_hold_queue_strongly = true. Proof. reflexivity. Qed.
